@@ -31,6 +31,7 @@ def _strip_walrus(e: ast.AST) -> ast.AST:
 def filter_agreement(ctx, rep, rule: str) -> None:
     repo = ctx.repo
     want = "{v}.to_local().numel() > 0"
+    forms = lambda v: {f"{v}.to_local().numel() > 0", f"{v}.to_local().numel() != 0", f"0 < {v}.to_local().numel()", f"{v}.to_local().numel() >= 1"}  # noqa: E731
     sites = 0
     for cq, info_meth in ((FULLY, "_construct_local_block_info_list"), (HYB, "_construct_global_block_info_list")):
         ci = repo.cls(cq)
@@ -46,7 +47,7 @@ def filter_agreement(ctx, rep, rule: str) -> None:
             comp = g.generators[0]
             v = comp.target.id if isinstance(comp.target, ast.Name) else "?"
             tests = [_norm(_strip_walrus(t)) for t in comp.ifs]
-            ok = len(g.generators) == 1 and tests == [want.format(v=v)] and _norm(comp.iter).endswith("_param_group[PARAMS]")
+            ok = len(g.generators) == 1 and len(tests) == 1 and tests[0] in forms(v) and _norm(comp.iter).endswith("_param_group[PARAMS]")
             detail = f"one filter shared by the parameter and the gradient sequence: `{tests}` over `{_norm(comp.iter)}` (must be `{want.format(v=v)}` of the parameter itself, also when gradients are requested)"
             # C08.2
             elt = g.elt
@@ -70,7 +71,7 @@ def filter_agreement(ctx, rep, rule: str) -> None:
         sites += 1
         if ok:
             lam = filt[0].args[0]
-            ok = isinstance(lam, ast.Lambda) and _norm(lam.body) == want.format(v=lam.args.args[0].arg) and "super()._get_params_or_grads()" in _norm(filt[0].args[1])
+            ok = isinstance(lam, ast.Lambda) and _norm(lam.body) in forms(lam.args.args[0].arg) and "super()._get_params_or_grads()" in _norm(filt[0].args[1])
             fname = [n.targets[0].id if isinstance(n, ast.Assign) else n.target.id for n in A.walk_no_nested(bi.node) if isinstance(n, (ast.Assign, ast.AnnAssign)) and n.value is filt[0]]
             zips = [c for c in A.calls(bi.node, nested=True) if isinstance(c.func, ast.Name) and c.func.id == "zip" and fname and fname[0] in _norm(c)]
             strict = bool(zips) and all(isinstance(A.keyword(z, "strict"), ast.Constant) and A.keyword(z, "strict").value is True for z in zips)
